@@ -100,6 +100,20 @@ CLAIMS = {
                   "(own spec observed) rests on the injection theorem of C06 plus the history runs.",
         technique="Lean 4 invariant over compilation histories (abstract method store) + history-based differential observation",
         ref="§3 C07"),
+    "C08": dict(
+        text="Model/AOD.lean is the atom-level simulator that defines 'physically executable' (crossed-AOD tone semantics as in the "
+             "repository's renderer; picks only from occupied traps, releases only onto vacant trap sites of the layout, no jump "
+             "while holding, grid shapes = tone list lengths, tone state kept per tone id across paths). Theorems for every "
+             "sequence of paths and every occupancy: C08_exec_conserves_atoms (accepted run => number of atoms unchanged, no trap "
+             "with two atoms, atoms only on their old sites or on layout sites). Tie: every library move (CZ move in both copies, "
+             "rearrange, move_by_waypoints, vertical_shift, gr_zero_to_one) is executed by the real interpreter with an event "
+             "logger on its module's layout over all small layouts, valid index lists and every invalid class; the played paths are "
+             "replayed in the simulator; valid calls must be accepted and end on the documented sites.",
+        note=TB + "The physics is a specification (Model/AOD.lean), fixed in DESIGN.md before any move was run through it; "
+                  "collisions in flight are not modelled. The per-move destination is decided on the real paths by the simulator for "
+                  "the enumerated inputs, and proved for all inputs only where Props/C08.lean says so.",
+        technique="Lean 4 invariant proofs over an executable AOD simulator + replay of the real moves' event logs in that simulator",
+        ref="§3 C08"),
     "C09": dict(
         text="Model/Runtime.lean is the analysis of analysis/runtime.py on the program language (both branches, loop body once, "
              "invoked subroutines, closures, recursion cut-off, dynamic call = refusal); which statements mark a frame quantum is a "
